@@ -115,6 +115,11 @@ struct L11 : Listener {
             Probe p2 = probe([&](Probe &P) { auto &e = fr->points_nonConst().point_nonConst(idx); P.desc = ptDesc(e); P.addr = &e; });
             if (!checkIdx(i, "Points::point_nonConst", idx, n, idx < n ? ptDesc(sfr.pts[idx]) : "", p2)) return;
             if (!p.threw && (p.addr != p2.addr || p.addr != &fr->points().points()[idx])) { fail(i, "point(idx), point_nonConst(idx) and points()[idx] are different objects"); return; }
+            if (!p.threw) {      // data() returns x, y, z, residual of the same point
+                const auto &e = fr->points().point(idx); std::vector<float> dv = e.data();
+                if (dv.size() != 4 || floatToBits(dv[0]) != floatToBits(e.x()) || floatToBits(dv[1]) != floatToBits(e.y()) || floatToBits(dv[2]) != floatToBits(e.z()) || floatToBits(dv[3]) != floatToBits(e.residual()))
+                    { fail(i, "Point::data() differs from x(), y(), z(), residual()"); return; }
+            }
             break; }
         case 2: {   // Points by name
             std::vector<std::string> names, descs; for (auto &e : sfr.pts) { names.push_back(e.name); descs.push_back(ptDesc(e)); }
